@@ -114,6 +114,9 @@ pub struct Inputs<'a> {
     pub utxos: &'a BTreeMap<String, HashSet<Utxo>>,
     pub fee: u64,
     pub cfg: &'a Cfg,
+    /// a second batch of arguments whose keys name no parameter (the parameters' names in upper case, other
+    /// values): applied before the real batch when bit 5 of the mask is set, after it otherwise
+    pub decoy: Option<&'a BTreeMap<String, ArgValue>>,
 }
 
 #[derive(Debug, Clone, PartialEq)]
@@ -164,7 +167,13 @@ pub fn run_schedule(tx: &tir::Tx, order: &[char; 4], reduce_mask: u8, inp: &Inpu
             }
         }
         let res = match st {
-            'A' => guard(|| cur.clone().apply_args(inp.args)).map(|r| r.map_err(|e| format!("{:?}", e))),
+            'A' => match inp.decoy {
+                None => guard(|| cur.clone().apply_args(inp.args)).map(|r| r.map_err(|e| format!("{:?}", e))),
+                Some(decoy) => {
+                    let (one, two) = if reduce_mask & 0b100000 != 0 { (decoy, inp.args) } else { (inp.args, decoy) };
+                    guard(|| cur.clone().apply_args(one).and_then(|x| x.apply_args(two))).map(|r| r.map_err(|e| format!("{:?}", e)))
+                }
+            },
             'I' => guard(|| cur.clone().apply_inputs(inp.utxos)).map(|r| r.map_err(|e| format!("{:?}", e))),
             'F' => guard(|| cur.clone().apply_fees(inp.fee)).map(|r| r.map_err(|e| format!("{:?}", e))),
             _ => {
@@ -242,7 +251,34 @@ pub fn check_case(tape: &[u16], rc: &mut RCase, all_schedules: bool) -> Result<(
     let (Some(args), Some(utxos)) = (pipeline::arg_map(&env), pipeline::input_map(&env)) else {
         return Ok(());
     };
-    let inp = Inputs { args: &args, utxos: &utxos, fee: case.fee, cfg: &cfg };
+    // arguments may arrive in several batches: a batch whose keys name no parameter exactly (the names in upper
+    // case, other values) changes nothing, whether it comes before or after the real one
+    let mut decoy: BTreeMap<String, ArgValue> = BTreeMap::new();
+    for (k, v) in &args {
+        let upper = k.to_uppercase();
+        if upper == *k || args.contains_key(&upper) {
+            continue;
+        }
+        let other = match v {
+            ArgValue::Int(i) => Some(ArgValue::Int(i.wrapping_add(1_000_003))),
+            ArgValue::Bool(b) => Some(ArgValue::Bool(!b)),
+            ArgValue::Bytes(b) => Some(ArgValue::Bytes(b.iter().rev().cloned().chain([7u8]).collect())),
+            ArgValue::String(s) => Some(ArgValue::String(format!("{}'", s))),
+            ArgValue::Address(a) => args.values().find_map(|x| match x {
+                ArgValue::Address(o) if o != a => Some(ArgValue::Address(o.clone())),
+                _ => None,
+            }),
+            _ => None,
+        };
+        if let Some(o) = other {
+            decoy.insert(upper, o);
+        }
+    }
+    let with_decoy = !decoy.is_empty() && t.chance(1, 3);
+    if with_decoy {
+        rc.label("arguments_in_two_batches");
+    }
+    let inp = Inputs { args: &args, utxos: &utxos, fee: case.fee, cfg: &cfg, decoy: if with_decoy { Some(&decoy) } else { None } };
     let perms = permutations();
     let mut schedules: Vec<(usize, u8)> = vec![];
     if all_schedules {
@@ -260,7 +296,7 @@ pub fn check_case(tape: &[u16], rc: &mut RCase, all_schedules: bool) -> Result<(
         schedules.push((find(['A', 'I', 'F', 'C']), 0b01000));
         schedules.push((find(['A', 'I', 'F', 'C']), 0));
         for _ in 0..20 {
-            schedules.push((t.pick(perms.len()), t.pick(32) as u8));
+            schedules.push((t.pick(perms.len()), t.pick(64) as u8));
         }
     }
     let mut first: Option<((usize, u8), End)> = None;
@@ -351,6 +387,27 @@ pub fn check_tree(tape: &[u16], rc: &mut RCase) -> Result<(), Failure> {
         tx.metadata.push(tir::Metadata { key: E::Number(4242), value: e });
         kinds.insert("planted:open_head_chain");
     }
+    // one time in eight an access into a literal whose addressed member is known while another member is still
+    // open: the access as a whole has to wait - the open member may yet fail, or (in a map) turn out to be the
+    // entry the key names
+    if t.chance(1, 8) {
+        use tir::{BuiltInOp, Expression as E};
+        let int_param = |n: &str| E::EvalParam(Box::new(tir::Param::ExpectValue(n.into(), tx3_tir::model::core::Type::Int)));
+        let e = if t.flag() {
+            // the open member fails once its argument is in (a field of a number)
+            let open = E::EvalBuiltIn(Box::new(BuiltInOp::Property(int_param("qty"), E::Number(0))));
+            let mut items = vec![E::Number(10), E::Number(20)];
+            items.insert(t.pick(3), open);
+            let known = (0..3).find(|i| matches!(items[*i], E::Number(_))).unwrap();
+            E::EvalBuiltIn(Box::new(BuiltInOp::Property(E::List(items), E::Number(known as i128))))
+        } else {
+            let flag = E::EvalParam(Box::new(tir::Param::ExpectValue("flag".into(), tx3_tir::model::core::Type::Bool)));
+            let entries = vec![(flag, E::Number(1)), (E::Bool(true), E::Number(2))];
+            E::EvalBuiltIn(Box::new(BuiltInOp::Property(E::Map(entries), E::Bool(true))))
+        };
+        tx.metadata.push(tir::Metadata { key: E::Number(4343), value: e });
+        kinds.insert("planted:member_of_open_literal");
+    }
     let rendered = || json!({"tir": crate::util::trunc(&format!("{:?}", tx), 4000)});
     let key = hash64(&format!("{:?}", tx));
     let r1 = match guard(|| tx.clone().reduce()) {
@@ -404,8 +461,19 @@ pub fn check_tree(tape: &[u16], rc: &mut RCase) -> Result<(), Failure> {
     let mut staged = false;
     if !params.is_empty() {
         let args: BTreeMap<String, ArgValue> = params.iter().map(|(k, ty)| (k.clone(), super::c06::arg_for(ty, &mut t))).collect();
-        let direct = guard(|| tx.clone().apply_args(&args).and_then(|x| x.reduce())).ok().and_then(|r| r.ok());
+        let direct_outcome = guard(|| tx.clone().apply_args(&args).and_then(|x| x.reduce()));
+        let direct_failed = matches!(direct_outcome, Ok(Err(_)));
+        let direct = direct_outcome.ok().and_then(|r| r.ok());
         let via = guard(|| r1.clone().apply_args(&args).and_then(|x| x.reduce())).ok().and_then(|r| r.ok());
+        if let (true, Some(b)) = (direct_failed, &via) {
+            // the early reduction folded something that was still open: what fails with the arguments in place
+            // went through because a reduction ran first
+            return Err(Failure::new(
+                "early_reduce_hides_a_failure",
+                "random IR tree: reduce(apply_args(t)) fails but reduce(apply_args(reduce(t))) succeeds".to_string(),
+                json!({"tir": crate::util::trunc(&format!("{:?}", tx), 3000), "args": format!("{:?}", args), "via_early_reduce": crate::util::trunc(&format!("{:?}", b), 3000)}),
+            ));
+        }
         if let (Some(a), Some(b)) = (&direct, &via) {
             staged = true;
             if canon_of(a) != canon_of(b) {
